@@ -61,6 +61,15 @@ def main(tier, seed, prop=PROP):
     ds = LG.dictionary_strings()
     for i in range(0, len(ds), 15000):
         jobs.append((LG.w_list, (exe, MODES, ds[i:i + 15000], opts, prop, "dictionary", i == 0, False)))
+    # block-size cover and the deterministic suites once more in a build with -O2 -march=native
+    native = cx.exe("asan-native", san="asan-native")
+    bl = LG.block_strings()
+    for i in range(0, len(bl), 8000):
+        jobs.append((LG.w_list, (exe, MODES, bl[i:i + 8000], opts, prop, "blocks", False, False)))
+        jobs.append((LG.w_list, (native, MODES, bl[i:i + 8000], opts, prop, "blocks/native", False, False)))
+    for src, lst in (("conformance/native", conf), ("bytes/native", bs), ("dictionary/native", ds[::4]), ("corpus/native", corp_all[::3])):
+        for ch in chunks(lst, 8000):
+            jobs.append((LG.w_list, (native, MODES, ch, opts, prop, src, src.startswith("conformance"), False)))
     wb = LG.width_boundary_strings(tier)
     for i in range(0, len(wb), 30):
         jobs.append((LG.w_list, (exe, MODES, wb[i:i + 30], opts, prop, "width-boundaries", False, False)))
